@@ -20,6 +20,11 @@ impl HttpCodedResponse for HttpResponseSeeOtherStatus {}
 impl HttpCodedResponse for HttpResponseTemporaryRedirectStatus {}
 /// HttpCodedResponse: a typed response kind; all that matters here is that it converts into a response
 pub trait HttpCodedResponse: Into<Result<Response, HttpError>> {}
+/// `body.into()` (W1: written as a function call; Into::into is a trait method without a contract): the response the
+/// coded body converts into, an uninterpreted function of the body (V15 verifies the real conversions)
+pub uninterp spec fn body_conv<T>(body: T) -> Result<Response, HttpError>;
+#[verifier::external_body]
+pub fn coded_into<T: HttpCodedResponse>(body: T) -> (r: Result<Response, HttpError>) ensures r == body_conv(body) { unimplemented!() }
 impl Default for HeaderMap {
     #[verifier::external_body]
     fn default() -> (r: HeaderMap) ensures hm_view(r) == Seq::<(Seq<char>, Seq<char>)>::empty() { unimplemented!() }
@@ -42,6 +47,18 @@ impl TryFrom<String> for HeaderName {
     #[verifier::external_body]
     fn try_from(s: String) -> (r: Result<HeaderName, InvalidHeaderName>)
         ensures (r is Ok) == header_name_ok(s@), r is Ok ==> r->Ok_0.name@ == header_name_norm(s@) { unimplemented!() }
+}
+/// http::HeaderName::from_lowercase(bytes): like try_from, but REFUSES a name that is not already in its normal
+/// (lower-case) form (so that using it for try_from is decided, not refused)
+pub struct ByteText { pub text: Ghost<Seq<char>> }
+/// `key.as_bytes()` (W1, only if the code uses it): the bytes of the text, remembered as the text they encode
+#[verifier::external_body]
+pub fn string_bytes(s: &String) -> (r: ByteText) ensures r.text@ == s@ { unimplemented!() }
+impl HeaderName {
+    #[verifier::external_body]
+    pub fn from_lowercase(b: ByteText) -> (r: Result<HeaderName, InvalidHeaderName>)
+        ensures (r is Ok) == (header_name_ok(b.text@) && header_name_norm(b.text@) == b.text@), r is Ok ==> r->Ok_0.name@ == b.text@
+    { unimplemented!() }
 }
 impl TryFrom<String> for HeaderValue {
     type Error = InvalidHeaderValue;
